@@ -261,6 +261,10 @@ class Puppet:
             sa = next((p for p in req.encrypted_payloads if p.type == P.SA), None)
             is_ike = sa is not None and sa.proposals[0].protocol_id == M.Proposal.Protocol.IKE
             v = r.choice(['honest', 'honest', 'honest', 'error', 'error', 'invalid-ke', 'widen-ts', 'flip-mode', 'bad-sa', 'drop-payload', 'extra-ke'])
+            forced_which = None
+            if getattr(self, 'forced', None) and not is_ike:
+                # answers a check wants to see in every run, whatever the random stream does: (variant, sub-variant)
+                v, forced_which = self.forced.pop(0)
             if v == 'error':
                 t = r.choice([N.NO_PROPOSAL_CHOSEN, N.TS_UNACCEPTABLE, N.CHILD_SA_NOT_FOUND, N.TEMPORARY_FAILURE, N.NO_ADDITIONAL_SAS,
                               N.INVALID_SYNTAX, N.SINGLE_PAIR_REQUIRED, N.AUTHENTICATION_FAILED])
@@ -313,7 +317,7 @@ class Puppet:
                     if v == 'widen-ts':
                         T = M.TrafficSelector
                         wide = lambda t: T(t.ts_type, T.IpProtocol.ANY, 0, 65535, ip_address(int(t.start_addr) & ~0xffff), ip_address(int(t.start_addr) | 0xffff))
-                        which = r.choice(['i', 'r', 'r', 'both', 'first-of-two-i', 'first-of-two-r'])
+                        which = forced_which or r.choice(['i', 'r', 'r', 'both', 'first-of-two-i', 'first-of-two-r'])
                         li, lr = [ci], [cr]
                         if which in ('i', 'both'):
                             li = [wide(ci)]
@@ -449,7 +453,7 @@ VARIANTS = [
 ]
 
 
-def campaign(ctx, res, n_hist, n_msgs, oracles=None, deep=True):
+def campaign(ctx, res, n_hist, n_msgs, oracles=None, deep=True, forced=None):
     """`n_hist` sessions with the puppet; `n_msgs` messages each"""
     rng = ctx.rng
     oracles = oracles or ORACLES
@@ -464,6 +468,7 @@ def campaign(ctx, res, n_hist, n_msgs, oracles=None, deep=True):
             if not h.establish(rng.choice('AB')):
                 continue
             pup = Puppet(h, rng)
+            pup.forced = list(forced[k % len(forced)]) if forced else []
             for i in range(n_msgs):
                 a_list = est(w.A)
                 if not a_list:
